@@ -175,4 +175,9 @@ pub mod verif {
     pub use super::template::verif as template;
     pub use super::trojan::verif as trojan;
     pub use super::vmess::verif as vmess;
+
+    /// the per-configuration server task of `main` (binds the configured listeners, runs until they end)
+    pub async fn startup(config: octo_squirrel::config::ServerConfig<SslConfig>) {
+        super::startup(config).await
+    }
 }
